@@ -38,6 +38,12 @@ Monitors (implementation alone, from the property text):
       the block, kept by the harness from outside; impl-only stream 2: a helper function the block left in context
       whose body calls save, called from later `!py` expressions / a kept reference, after keys were cleared /
       rebound / contextclearall): the CALL adds / rebinds only the keys it is given, removes nothing
+  M11 (the pyimport SOURCE LANGUAGE; harness/impl_c14_imp.py, model lean/PypyrModel/PyImportSrc.lean, driver op
+      pyns.importBind) sessions of 1-3 pyimport steps over REAL throw-away packages: the oracle is plain Python
+      (`exec(source, g)`, one g per session): every name an import statement of the source binds in g must be
+      readable via `!py` from the top level, from a comprehension with two for-clauses and from a lambda and be
+      the SAME object; `import a.b.c` makes the chain a.b.c readable; the step leaves the context as it was;
+      a source plain Python imports must not be refused (wildcard excepted: documented) and vice versa
   M9  (implementation only, not compared with the model) every mutating method of the namespace object and
       of the objects reachable from it by method call (`copy()`, `new_child()`, `parents`, `|`), through
       every receiver (`globals()`, `locals()`, `vars()`, from a lambda / comprehension / :=): context keys,
@@ -54,6 +60,7 @@ import signal
 from .. import common
 from ..common import canon
 from .. import impl_c14 as I
+from .. import impl_c14_imp as IM
 from ..impl_c14 import (N, C, W, T, Lam, Call, App, Comp, GenE, Drain, Ns, SetI, SetS, As, Aug, Del, Ex, Def, Cls, Save, Imp,
                          tok, ref)
 
@@ -92,6 +99,13 @@ ASSUMPTIONS = ['PyNs is a model of name binding, not of Python: values are opaqu
                '(UnboundLocalError for a global; PyNs.lean E9): detected syntactically with an over-approximation '
                '(impl_c14.inlining_quirk), the model comparison stops before such an op (counted), monitors go on',
                'programs that rebind `__builtins__` are rejected by the driver (counted)',
+               'pyimport source language (M11 / PyImportSrc.lean): `from m import *` ends in ModuleNotFoundError and '
+               'relative imports in TypeError in the code (documented as unsupported; plain Python would bind the public '
+               'names / refuse differently) - modelled as they are, not judged; a source that fails half-way binds '
+               'NOTHING in the code (plain Python keeps the earlier bindings) - modelled, not judged; import statements '
+               'nested in if/try/def/class bodies (generic_visit walks into them and binds at top level), module '
+               'attributes named like a sub-module (state of sys.modules decides), namespace packages, __all__, '
+               'import hooks and the per-source memo of pystring_namespace_cache are outside the generated domain',
                'rehydration: marker objects and the two scratch import modules pickle / deep-copy by reference '
                '(real modules do not pickle at all); a context whose cargo does not pickle falls back to '
                'deepcopy, then copy']
@@ -571,6 +585,44 @@ def check_impl_only(cases, sink):
             sink.violation(case, detail, sig, o)
 
 
+def check_import_cases(driver, cases, sink):
+    """The pyimport source language: model (pyns.importBind) vs ImportVisitor / the pyimport step on real
+    throw-away packages, and the plain-Python monitor of impl_c14_imp.run_impl."""
+    model = driver.ask_many([('pyns.importBind', IM.payload(c)) for c in cases])
+    for case, m in zip(cases, model):
+        if isinstance(m, common.Reject):
+            sink.mismatch(case, {'reject': str(m)}, None, 'the import-source model rejects a generated case')
+            continue
+        signal.setitimer(signal.ITIMER_REAL, 20)
+        try:
+            isteps, findings = IM.run_impl(case)
+        except Hang:
+            sink.violation(case, 'pyimport of the source did not return within 20 s',
+                           {'site': 'moduleloader.ImportVisitor', 'effect': 'never-returned'}, None)
+            continue
+        finally:
+            signal.setitimer(signal.ITIMER_REAL, 0)
+        sink.count('import-src:family:' + case.get('family', '?'))
+        for source, st in zip(case['sources'], isteps):
+            sink.count('import-src:step:' + st['step'])
+            for s in source['stmts']:
+                f = IM.stmt_form(s)
+                sink.count('import-src:form:' + (f if f.count(',') < 2 else f.split('[')[0] + '[3-or-more-items]'))
+        if len(case['sources']) > 1:
+            sink.count('import-src:several-pyimport-steps-on-one-context')
+        sink.case(case, True)
+        for detail, sig, obs in findings:
+            sink.violation(case, detail, sig, obs)
+        d = IM.compare(m['steps'], isteps)
+        if d is not None:
+            first = next((i for i in range(min(len(d[0]), len(d[1]))) if d[0][i] != d[1][i]), None)
+            sink.mismatch(case, d[0], d[1], f'pyimport source language; first differing step: {first}')
+
+
+def import_stream(rng, n_random):
+    return IM.directed() + [IM.random_case(rng) for _ in range(n_random)]
+
+
 def _worker(args):
     seed, n = args
     common.use_repo()
@@ -591,7 +643,14 @@ def _worker(args):
 
 
 def run(env, res):
-    res.rule = ('directed sessions (deferred nested scopes: lambdas / generator objects kept by set: or handed to '
+    res.rule = ('pyimport source language: ~690 directed sessions over real throw-away packages (every single import form; '
+                'every ordered pair (x3 module choices, + same alias twice) and triple of item shapes plain / dotted / '
+                'dotted deeper / aliased x3 in ONE statement; missing modules at every position; from-forms: attribute, '
+                'sub-module, module alias attribute, pairs in both orders with / without asname, all names, missing, star, '
+                'relative; two statements per source with newline / `;` separators and statements that import nothing; '
+                '3 pyimport steps on one Context incl. a failing middle step) + random sessions (1-3 steps x 1-4 statements '
+                'x 1-4 items, aliases colliding with package names / context keys / builtins). '
+                'directed sessions (deferred nested scopes: lambdas / generator objects kept by set: or handed to '
                 'foreach, then context updates / deletions / pyimport / contextclearall / rehydration, then called / '
                 'drained / looped over; the namespace object\'s own methods through globals() and locals(); name '
                 'collisions context key = pyimport name = builtin = block local) + an implementation-only stream '
@@ -623,6 +682,14 @@ def run(env, res):
     sink = Sink()
     check_impl_only(save_helper_stream(env.rng, env.n(250, 8000)), sink)
     sink.into(res)
+    sink = Sink()
+    try:
+        stream = import_stream(env.rng, env.n(600, 20000))
+        for start in range(0, len(stream), 500):
+            check_import_cases(env.driver, stream[start:start + 500], sink)
+    finally:
+        IM.close_all()
+    sink.into(res)
     n = env.n(5000, 100000)
     if env.quick:
         gen = I.Gen(env.rng)
@@ -642,13 +709,18 @@ def run(env, res):
 
 def replay(env, res, case):
     """Re-run exactly one recorded case (the `case` field of a replay file, or the file itself)."""
-    if 'case' in case and 'ops' not in case:
+    if 'case' in case and 'ops' not in case and 'sources' not in case:
         case = case['case']
     if 'first_diverging_case' in case and case['first_diverging_case']:
         case = case['first_diverging_case']['case']
     signal.signal(signal.SIGALRM, _alarm)
     sink = Sink()
-    if case.get('kind') in ('impl-only', 'impl-only-save'):
+    if case.get('kind') == 'import-src':
+        try:
+            check_import_cases(env.driver, [case], sink)
+        finally:
+            IM.close_all()
+    elif case.get('kind') in ('impl-only', 'impl-only-save'):
         check_impl_only([case], sink)
     else:
         check_cases(env.driver, [I.render(case)], sink)
